@@ -29,6 +29,16 @@ CLAIMED = {
             "The fork and go-ethereum v1.12.0 run the same generated in-domain program with full recorders; the callback sequences are compared argument by argument (pc, op, gas, cost, depth, stack, memory, return data, error class, from/to/input/gas/value, output/gasUsed). Each inherited tracer (struct x4, JSON x2, access-list, call x4, flatCall x4, prestate x2, 4byte, mux, noop) is attached on the fork and its upstream original on the reference, outputs compared byte-wise. Aspect-bound call trees with a failure injected at every firing position must keep Start/End and Enter/Exit balanced.",
             "go-ethereum v1.12.0 tracers are the trusted originals; paired-tracer comparison uses Call/Create entry points (how a chain attaches tracers); access-list output compared as a sorted list (map order on both sides).",
             "DESIGN.md §3 C18"),
+    "C11": ("exploration",
+            "history monitor against an executable reference model: the exported Tracer API and a map-based model are driven with the same operation history and compared after every operation (queries + complete hook dump)",
+            "All histories up to length 4 (quick) / 5 (thorough) over a 19-operation alphabet are enumerated (exhaustive for that alphabet and bound) and random layout-consistent histories of length <= 40 over generated nested layouts are added; after every operation the return value, every query (Variable, FindKeyIndices, Slot, IndicesOfChanges, children, Balance, node type, cursor) and the complete dump (name path and flat index must reach the same node) are compared with the model; refused operations must leave the dump unchanged.",
+            "The reference model (models/keyreg) is the trusted specification; histories are layout consistent (conflicting registrations are undefined by the statement and not generated).",
+            "DESIGN.md §3 C11"),
+    "C19": ("exploration",
+            "history monitor: generated well-nested event streams fed directly to callTracer/flatCallTracer (8 configs); GetResult checked against the tree rebuilt from the same stream",
+            "An exhaustive skeleton family (0-2 Aspects per join point, 0-2 calls inside an Aspect, 0-2 body calls, nested join points) plus random deeper streams are fed through the tracers' EVMLogger+AspectLogger methods; no panic, every frame and Aspect execution exactly once under its issuer with its own gasUsed/output/error; flat: unique prefix-closed trace addresses, children numbered 0..k-1, subtraces = emitted children.",
+            "The expected tree comes from models/calltrace applied to the same stream; documented design filters (precompile pruning, onlyTopCall) are modelled.",
+            "DESIGN.md §3 C19"),
 }
 
 # Properties not (yet) claimed. Reason must be current.
